@@ -752,7 +752,14 @@ def c09d(chk):
         # each line is split at the first TAB into (sample, Some(label)); a line without TAB is (line, None)
         sep_ok = False
         why = "closure not recognised"
-        for c in prog.closures_of(f.path):
+        # the per-line mapper: a closure of from_str (the line is its local 2), or a named workspace function handed to `map` (local 1)
+        mappers = [(c_, 2) for c_ in prog.closures_of(f.path)]
+        for b2, t in f.calls():
+            if callee_is(t["callee"], N.MAP):
+                for a in t["args"][1:]:
+                    if a["k"] == "const" and a.get("fn") and prog.fn(a["fn"]) is not None:
+                        mappers.append((prog.fn(a["fn"]), 1))
+        for c, line_local in mappers:
             chk.fns_analysed.add(c.path)
             so = [t for b2, t in c.calls() if callee_is(t["callee"], "core::str::<impl str>::split_once")]
             # nothing else touches the line or its parts: in the closure and the closures nested in it only Option plumbing is allowed
@@ -763,7 +770,7 @@ def c09d(chk):
                 sepv = sep.get("val") if sep else None
                 recv = op_local(so[0]["args"][0])
                 rp = c.resolve_ptr(recv) if recv is not None else None
-                whole_line = recv is not None and (c.copy_root(recv) == 2 or (rp is not None and rp[0] == 2 and rp[1] in ((), (("deref",),))))
+                whole_line = recv is not None and (c.copy_root(recv) == line_local or (rp is not None and rp[0] == line_local and rp[1] in ((), (("deref",),))))
                 sep_ok = sepv == "\t" and whole_line and not others
                 why = "split_once(%r) on the whole line=%s, other calls=%s" % (sepv, whole_line, others)
         chk.ob("C09.d", "Map::from_str/split-at-first-TAB", sep_ok, f.loc(), "the samples file is `sample<TAB>label`: names may contain spaces (%s)" % why)
